@@ -331,6 +331,9 @@ def v4_xmod_blocks(size=("min", "min")):
     metric that the spelling does not use as an explicit X (see c02.visit)."""
     out = []
     for b in v4_blocks("quick", "short", size):
+        if "g36_free" in b.name:
+            b.A = b.A[::2]          # keep the explicit-X variant at a quarter of the short one
+            b.C = b.C[::2] + b.C[-1:]
         blk = Block(b.name.replace("short", "xmod"), "4.0", b.A, b.B, b.C)
         blk.meta["xmod"] = True
         out.append(blk)
